@@ -1,7 +1,292 @@
-//! further ops (authenticator data, U2F, dispatch, identifier tables, arbitrary)
-use crate::build::R;
-use serde_json::Value;
+//! further ops: command table, identifier tables, authenticator data, CTAP1, dispatch, arbitrary
+use crate::build::{self, field, get_bn, get_bool, get_bytes, get_opt, get_text, get_u8, R};
+use crate::proj::{self, bytes, text};
+use ctap_types::ctap1;
+use ctap_types::ctap2::{self, client_pin, credential_management, get_assertion, get_info, make_credential};
+use serde_json::{json, Value};
 
-pub fn run(op: &str, _inp: &Value) -> R<Value> {
-    Err(format!("unknown op {}", op))
+// ------------------------------------------------------------------------------------------
+// optable: Operation::try_from(u8), u8::from(Operation), VendorOperation::try_from(u8)
+// ------------------------------------------------------------------------------------------
+fn op_name(op: ctap2::Operation) -> String {
+    let d = format!("{:?}", op);
+    d.split('(').next().unwrap_or("").to_string()
+}
+
+pub fn optable(inp: &Value) -> R<Value> {
+    let c = get_u8(field(inp, "c")?)?;
+    let (recognised, name, back) = match ctap2::Operation::try_from(c) {
+        Ok(op) => (true, op_name(op), u8::from(op) as i64),
+        Err(()) => (false, String::new(), -1),
+    };
+    let into_u8_same = match ctap2::Operation::try_from(c) {
+        Ok(op) => op.into_u8() == u8::from(op),
+        Err(()) => true,
+    };
+    let (vendor_ok, vendor_back) = match ctap2::VendorOperation::try_from(c) {
+        Ok(v) => (true, u8::from(v) as i64),
+        Err(()) => (false, -1),
+    };
+    Ok(json!({"recognised": recognised, "name": name, "back": back, "into_u8_same": into_u8_same,
+              "vendor_ok": vendor_ok, "vendor_back": vendor_back}))
+}
+
+// ------------------------------------------------------------------------------------------
+// identifier tables
+// ------------------------------------------------------------------------------------------
+pub fn enum_str(inp: &Value) -> R<Value> {
+    let table = field(inp, "table")?.as_str().ok_or("table")?;
+    let raw = get_bytes(field(inp, "s")?)?;
+    let s = match std::str::from_utf8(&raw) {
+        Ok(s) => s,
+        Err(_) => return Err("enum_str candidates must be UTF-8".into()),
+    };
+    let back: Option<&str> = match table {
+        "Version" => get_info::Version::try_from(s).ok().map(|v| v.into()),
+        "Extension" => get_info::Extension::try_from(s).ok().map(|v| v.into()),
+        "Transport" => get_info::Transport::try_from(s).ok().map(|v| v.into()),
+        "Format" => ctap2::AttestationStatementFormat::try_from(s).ok().map(|v| v.into()),
+        _ => return Err(format!("enum_str: unknown table {}", table)),
+    };
+    Ok(json!({"ok": back.is_some(), "back": match back { Some(b) => text(b), None => json!([]) }}))
+}
+
+pub fn enum_u8(inp: &Value) -> R<Value> {
+    let table = field(inp, "table")?.as_str().ok_or("table")?;
+    let n = get_u8(field(inp, "n")?)?;
+    let back: Option<u8> = match table {
+        "CredProtect" => credential_management::CredentialProtectionPolicy::try_from(n).ok().map(|v| v as u8),
+        "ControlByte" => ctap1::ControlByte::try_from(n).ok().map(|v| v as u8),
+        _ => return Err(format!("enum_u8: unknown table {}", table)),
+    };
+    Ok(json!({"ok": back.is_some(), "back": back.map(|b| b as i64).unwrap_or(-1)}))
+}
+
+pub fn permissions(inp: &Value) -> R<Value> {
+    let n = get_u8(field(inp, "n")?)?;
+    use client_pin::Permissions as P;
+    let valid = P::from_bits(n).map(|p| p.bits() == n).unwrap_or(false);
+    Ok(json!({
+        "valid": valid,
+        "mc": P::MAKE_CREDENTIAL.bits(), "ga": P::GET_ASSERTION.bits(), "cm": P::CREDENTIAL_MANAGEMENT.bits(),
+        "be": P::BIO_ENROLLMENT.bits(), "lbw": P::LARGE_BLOB_WRITE.bits(), "acfg": P::AUTHENTICATOR_CONFIGURATION.bits(),
+    }))
+}
+
+pub fn status_codes(_inp: &Value) -> R<Value> {
+    use ctap2::Error::*;
+    let all = [
+        Success, InvalidCommand, InvalidParameter, InvalidLength, InvalidSeq, Timeout, ChannelBusy, LockRequired,
+        InvalidChannel, CborUnexpectedType, InvalidCbor, MissingParameter, LimitExceeded, UnsupportedExtension,
+        FingerprintDatabaseFull, LargeBlobStorageFull, CredentialExcluded, Processing, InvalidCredential,
+        UserActionPending, OperationPending, NoOperations, UnsupportedAlgorithm, OperationDenied, KeyStoreFull,
+        NotBusy, NoOperationPending, UnsupportedOption, InvalidOption, KeepaliveCancel, NoCredentials,
+        UserActionTimeout, NotAllowed, PinInvalid, PinBlocked, PinAuthInvalid, PinAuthBlocked, PinNotSet,
+        PinRequired, PinPolicyViolation, PinTokenExpired, RequestTooLarge, ActionTimeout, UpRequired, UvBlocked,
+        IntegrityFailure, InvalidSubcommand, UvInvalid, UnauthorizedPermission, Other, SpecLast, ExtensionFirst,
+        ExtensionLast, VendorFirst, VendorLast,
+    ];
+    let mut m = serde_json::Map::new();
+    for e in all {
+        m.insert(format!("{:?}", e), json!(e as u8));
+    }
+    let flags = ctap2::AuthenticatorDataFlags::all();
+    Ok(json!({"codes": Value::Object(m),
+              "flag_up": ctap2::AuthenticatorDataFlags::USER_PRESENCE.bits(),
+              "flag_uv": ctap2::AuthenticatorDataFlags::USER_VERIFIED.bits(),
+              "flag_at": ctap2::AuthenticatorDataFlags::ATTESTED_CREDENTIAL_DATA.bits(),
+              "flag_ed": ctap2::AuthenticatorDataFlags::EXTENSION_DATA.bits(),
+              "flag_all": flags.bits(),
+              "u2f_no_error": ctap1::NO_ERROR}))
+}
+
+// ------------------------------------------------------------------------------------------
+// authenticator data
+// ------------------------------------------------------------------------------------------
+fn pattern(seed: u64, n: usize) -> std::vec::Vec<u8> {
+    (1..=n as u64).map(|i| ((seed + i * 7) % 251) as u8).collect()
+}
+
+pub fn authdata(inp: &Value) -> R<Value> {
+    let i = field(inp, "in")?;
+    let flavour = field(i, "flavour")?.as_str().ok_or("flavour")?;
+    let hash: [u8; 32] = get_bytes(field(i, "rpIdHash")?)?.as_slice().try_into().map_err(|_| "rpIdHash must be 32 bytes")?;
+    let bits = get_u8(field(i, "flags")?)?;
+    let flags = ctap2::AuthenticatorDataFlags::from_bits(bits).ok_or("flags outside the four defined bits")?;
+    let count = u32::try_from(get_bn(field(i, "count")?)?).map_err(|e| e.to_string())?;
+    let acd = get_opt(field(i, "acd")?)?;
+    let ext = get_opt(field(i, "ext")?)?;
+    let (aaguid, id, pk);
+    let acd_val = match acd {
+        Some(a) => {
+            aaguid = get_bytes(field(a, "aaguid")?)?;
+            let id_len = field(a, "idLen")?.as_u64().ok_or("idLen")? as usize;
+            let id_seed = field(a, "idSeed")?.as_u64().ok_or("idSeed")?;
+            id = pattern(id_seed, id_len);
+            pk = get_bytes(field(a, "pk")?)?;
+            Some(make_credential::AttestedCredentialData { aaguid: &aaguid, credential_id: &id, credential_public_key: &pk })
+        }
+        None => None,
+    };
+    let res = match flavour {
+        "mc" => {
+            let e = match ext { Some(e) => Some(build::mc_ext(e)?), None => None };
+            let ad = make_credential::AuthenticatorData {
+                rp_id_hash: &hash, flags, sign_count: count, attested_credential_data: acd_val, extensions: e,
+            };
+            let _ = format!("{:?}", ad.clone() == ad);
+            ad.serialize()
+        }
+        "ga" => {
+            if acd_val.is_some() {
+                return Err("ga flavour has no attested credential data".into());
+            }
+            let e = match ext { Some(e) => Some(build::ga_ext_out(e)?), None => None };
+            let ad = get_assertion::AuthenticatorData {
+                rp_id_hash: &hash, flags, sign_count: count,
+                attested_credential_data: None::<get_assertion::NoAttestedCredentialData>, extensions: e,
+            };
+            ad.serialize()
+        }
+        f => return Err(format!("unknown flavour {}", f)),
+    };
+    Ok(match res {
+        Ok(b) => json!({"ok": true, "bytes": bytes(&b), "err": 0}),
+        Err(e) => json!({"ok": false, "bytes": [], "err": e as u8}),
+    })
+}
+
+// ------------------------------------------------------------------------------------------
+// CTAP1 request parsing
+// ------------------------------------------------------------------------------------------
+fn proj_ctap1(r: &Result<ctap1::Request, ctap1::Error>, data_range: Option<&[u8]>) -> Value {
+    match r {
+        Ok(req) => {
+            let _ = format!("{:?}", req);
+            let (variant, control, ch, app, kh): (&str, u8, &[u8], &[u8], &[u8]) = match req {
+                ctap1::Request::Register(r) => ("Register", 0, &r.challenge[..], &r.app_id[..], &[]),
+                ctap1::Request::Authenticate(a) => ("Authenticate", a.control_byte as u8, &a.challenge[..], &a.app_id[..], a.key_handle),
+                ctap1::Request::Version => ("Version", 0, &[], &[], &[]),
+            };
+            let _ = data_range;
+            json!({"ok": true, "sw": 0,
+                   "req": {"variant": variant, "control": control, "challenge": bytes(ch), "appId": bytes(app), "keyHandle": bytes(kh)}})
+        }
+        Err(e) => json!({"ok": false, "sw": u16::from(*e),
+                         "req": {"variant": "", "control": 0, "challenge": [], "appId": [], "keyHandle": []}}),
+    }
+}
+
+pub fn apdu(inp: &Value) -> R<Value> {
+    let wire = get_bytes(field(inp, "wire")?)?;
+    // entry point 1: borrowed view
+    let view = iso7816::command::CommandView::try_from(wire.as_slice());
+    let mut obs = match view {
+        Ok(v) => {
+            let r = ctap1::Request::try_from(v);
+            let mut o = proj_ctap1(&r, Some(v.data()));
+            o["framed"] = json!(true);
+            o
+        }
+        Err(_) => json!({"framed": false, "ok": false, "sw": 0,
+                         "req": {"variant": "", "control": 0, "challenge": [], "appId": [], "keyHandle": []}}),
+    };
+    // entry point 2: owned command (capacity larger than any extended APDU body we generate)
+    let same_owned = match iso7816::Command::<7609>::try_from(wire.as_slice()) {
+        Ok(cmd) => {
+            let r = ctap1::Request::try_from(&cmd);
+            let o2 = proj_ctap1(&r, None);
+            obs["framed"] == json!(true) && o2["ok"] == obs["ok"] && o2["sw"] == obs["sw"] && o2["req"] == obs["req"]
+        }
+        Err(_) => obs["framed"] == json!(false) || wire.len() > 7609,
+    };
+    obs["same_owned"] = json!(same_owned);
+    Ok(obs)
+}
+
+// ------------------------------------------------------------------------------------------
+// CTAP1 response encoding
+// ------------------------------------------------------------------------------------------
+fn build_ctap1_response(v: &Value) -> R<ctap1::Response> {
+    let variant = field(v, "variant")?.as_str().ok_or("variant")?;
+    Ok(match variant {
+        "Register" => ctap1::Response::Register(ctap1::register::Response {
+            header_byte: get_u8(field(v, "header")?)?,
+            public_key: build::hbytes(field(v, "publicKey")?)?,
+            key_handle: build::hbytes(field(v, "keyHandle")?)?,
+            attestation_certificate: build::hbytes(field(v, "cert")?)?,
+            signature: build::hbytes(field(v, "sig")?)?,
+        }),
+        "Authenticate" => ctap1::Response::Authenticate(ctap1::authenticate::Response {
+            user_presence: get_u8(field(v, "presence")?)?,
+            count: u32::try_from(get_bn(field(v, "count")?)?).map_err(|e| e.to_string())?,
+            signature: build::hbytes(field(v, "sig")?)?,
+        }),
+        "Version" => {
+            let b: [u8; 6] = get_bytes(field(v, "version")?)?.as_slice().try_into().map_err(|_| "version must be 6 bytes")?;
+            ctap1::Response::Version(b)
+        }
+        x => return Err(format!("unknown ctap1 response variant {}", x)),
+    })
+}
+
+fn u2f_serialize<const S: usize>(resp: &ctap1::Response, pre: &[u8]) -> (bool, std::vec::Vec<u8>) {
+    let mut buf = iso7816::Data::<S>::new();
+    buf.extend_from_slice(&pre[..pre.len().min(S)]).unwrap();
+    let r = resp.serialize(&mut buf);
+    (r.is_ok(), buf.to_vec())
+}
+
+pub fn u2f_encode(inp: &Value) -> R<Value> {
+    let resp = build_ctap1_response(field(inp, "resp")?)?;
+    let pre = get_bytes(field(inp, "pre")?)?;
+    let cap = field(inp, "cap")?.as_u64().ok_or("cap")? as usize;
+    if pre.len() > cap {
+        return Err("prefill longer than capacity".into());
+    }
+    let (ok, buf) = crate::with_u2f_cap!(cap, u2f_serialize, &resp, &pre)
+        .ok_or_else(|| format!("U2F capacity {} is not instantiated", cap))?;
+    let _ = format!("{:?}", resp.clone() == resp);
+    Ok(json!({"ok": ok, "buf": bytes(&buf)}))
+}
+
+/// register::Response::new assembles 0x04 || x || y
+pub fn u2f_register_new(inp: &Value) -> R<Value> {
+    let key = build::ecdh(field(inp, "key")?)?;
+    if key.x.len() != 32 || key.y.len() != 32 {
+        return Err("coordinates must be 32 bytes".into());
+    }
+    let r = ctap1::register::Response::new(
+        get_u8(field(inp, "header")?)?,
+        &key,
+        build::hbytes(field(inp, "keyHandle")?)?,
+        build::hbytes(field(inp, "sig")?)?,
+        build::hbytes(field(inp, "cert")?)?,
+    );
+    Ok(json!({"header": r.header_byte, "publicKey": bytes(&r.public_key), "keyHandle": bytes(&r.key_handle),
+              "cert": bytes(&r.attestation_certificate), "sig": bytes(&r.signature)}))
+}
+
+pub fn run(op: &str, inp: &Value) -> R<Value> {
+    match op {
+        "optable" => optable(inp),
+        "enum_str" => enum_str(inp),
+        "enum_u8" => enum_u8(inp),
+        "permissions" => permissions(inp),
+        "status_codes" => status_codes(inp),
+        "authdata" => authdata(inp),
+        "apdu" => apdu(inp),
+        "u2f_encode" => u2f_encode(inp),
+        "u2f_register_new" => u2f_register_new(inp),
+        "dispatch" => crate::mock::dispatch(inp),
+        #[cfg(feature = "arbitrary")]
+        "arbitrary" => crate::arb::arbitrary(inp),
+        _ => Err(format!("unknown op {}", op)),
+    }
+}
+
+#[allow(dead_code)]
+fn _unused(v: &Value) -> R<()> {
+    let _ = (get_bool(v), get_text(v), proj::none());
+    Ok(())
 }
